@@ -368,8 +368,9 @@ def save_found(pid, viol):
     h = hashlib.sha1(json.dumps(viol["plan"], sort_keys=True).encode()).hexdigest()[:12]
     path = os.path.join(d, f"{pid}-{h}.json")
     with open(path, "w") as f:
+        # no sort_keys: the insertion order of dict keys inside a plan can matter (items of lists of dicts)
         json.dump({"property": pid, "plan": viol["plan"], "what": viol["what"],
-                   "detail": viol["detail"]}, f, indent=1, sort_keys=True)
+                   "detail": viol["detail"]}, f, indent=1)
         f.write("\n")
     return path
 
